@@ -31,6 +31,7 @@ def run(ctx):
     ctx.rule("C11.4", "a SOA makes the zone authoritative at its owner; both insert paths clamp the TTL to max(soa.minimum, ttl)")
     ctx.rule("C11.5", "no parser error is discarded outside the documented back-tracking helper")
     ctx.rule("C11.6", "tokeniser character classes vs writer escape classes (shared with C13.1)")
+    ctx.rule("C11.7", "record forms: the type may be preceded by 0..3 fields and each form is tried for every line long enough for it; a leading field is a TTL exactly when it is all digits, otherwise a name")
     ctx.decline("that parsing yields exactly the denoted records for every rendering (value property)")
 
     zd = prog.fn(ZONE_DES)
@@ -158,6 +159,56 @@ def run(ctx):
     ctx.check(classes == {"IN"}, "C11.1", "reject:class-not-IN", "the only class literal accepted is \"IN\"", "class literals compared: %s" % sorted(classes), prr.loc())
     unexpected = [b for b, v in perrs.items() if v == "Unexpected"]
     ctx.check(len(unexpected) >= 1, "C11.1", "reject:class-mismatch", "a 5-field record without IN in either class position is an error", "no error for a non-IN class", prr.loc())
+
+    # ---------------------------------------------------------------- C11.7
+    tp = [(b, t) for b, t in prr.calls() if (t.get("callee") or "").endswith("deserialise::try_parse_rtype_with_data")]
+    forms = {}
+    def toks_len(x):
+        px = A.peel(x)
+        return px[0] == "call" and px[1].endswith("::len") and px[2] and A.path_str(px[2][0]) == "param4"
+    def len_fact_ok(fc, n):
+        if fc[0] == "call" and fc[1].endswith("::is_empty") and fc[2] and A.path_str(fc[2][0]) == "param4":
+            return (n == 0) == fc[3]
+        if fc[0] == "cmp":
+            for op, x, y in ((fc[1], fc[2], fc[3]), (A.SWAP[fc[1]], fc[3], fc[2])):
+                py = A.peel(y)
+                if toks_len(x) and py[0] == "const" and isinstance(py[2], int):
+                    k = py[2]
+                    return {"Eq": n == k, "Ne": n != k, "Lt": n < k, "Le": n <= k, "Gt": n > k, "Ge": n >= k}[op]
+        return None
+    for b, t in tp:
+        e = prrr.call_expr(t, b)
+        sl = A.peel_until_call(e[2][1], "index")
+        k = None
+        if sl[0] == "call" and sl[1].endswith("::index") and A.path_str(sl[2][0]) == "param4":
+            rng = A.peel(sl[2][1])
+            if rng[0] == "agg" and rng[1] == "std::ops::RangeFrom":
+                st_ = A.peel(dict(rng[3])["start"])
+                k = st_[2] if st_[0] == "const" else None
+        facts = prc.facts_on_all_paths(b)
+        least = [n for n in range(0, 8) if all(len_fact_ok(fc, n) is not False for fc in facts)]
+        forms[k] = least[0] if least else None
+    ctx.check(forms == {0: 1, 1: 2, 2: 3, 3: 4}, "C11.7", "parse_rr:forms", "the type is looked for at token 0, 1, 2 and 3, each as soon as the line has that many tokens + 1",
+              "record forms tried (first type token -> least line length): %s" % forms, prr.loc())
+    # TTL or name?  tokens[0] is read as a TTL only if every character is a digit, as a name only after a non-digit was seen
+    def tok0(x):
+        return (A.path_str(x) or "").startswith("param4.[0]") or "index(param4, 0)" in (A.path_str(x) or "") or \
+            any(y[0] == "call" and y[1].endswith("::index") and A.path_str(y[2][0]) == "param4" and A.peel(y[2][1])[0] == "const" and A.peel(y[2][1])[2] == 0 for y in A.walk(x))
+    def non_digit(fc):
+        if fc[0] != "call" or not fc[1].endswith("char>::is_ascii_digit") or fc[3] is not False or not fc[2]:
+            return False
+        src = A.iter_elem_source(fc[2][0])
+        return src is not None and tok0(src)
+    nd_edges = prc.edges_where(non_digit)
+    n_amb = 0
+    for b, t in prr.calls():
+        n_ = t.get("callee") or ""
+        if n_.endswith("deserialise::parse_u32") and tok0(prrr.call_expr(t, b)[2][0]):
+            n_amb += 1
+            ctx.check(A.never_after(prr, nd_edges, b), "C11.7", "parse_rr:ttl-iff-digits#%d" % n_amb, "token 0 is read as a TTL only if all its characters are digits",
+                      "token 0 can be read as a TTL although it contains a non-digit (a name such as `host1` would be rejected)", prr.loc(b))
+    ctx.floor("C11.7", "places where token 0 is read as a TTL", n_amb, 2)
+    ctx.floor("C11.7", "per-character digit tests of token 0", len(nd_edges), 2)
 
     # ---------------------------------------------------------------- C11.3
     pdm = prog.find("zones::deserialise::parse_domain")
